@@ -110,6 +110,9 @@ class Loader:
             raise LoadError(f"module {modname} not found under {self.repo}")
         with open(path, encoding="utf-8") as f:
             src = f.read()
+        rel = os.path.relpath(path, self.repo)
+        if rel in getattr(self, "overrides", {}):
+            src = self.overrides[rel]  # in-memory must-fail mutant; nothing is written to /repo
         tree = ast.parse(src, filename=path)
         m = Module(modname, path, tree, src)
         self.modules[modname] = m
